@@ -211,53 +211,89 @@ def edit_entry_points(ctx: Ctx, rs: RuleSet):
             ctx.loc(f, f.node))
 
 
+def _fresh_receiver(f, recv, at) -> bool:
+  """`recv` (a Name) was last rebound, before `at`, to a new object."""
+  if not isinstance(recv, ast.Name):
+    return False
+  defs = [s for s in walk_function(f.node) if isinstance(s, ast.Assign) and
+          any(isinstance(t, ast.Name) and t.id == recv.id for t in s.targets)
+          and s.lineno < at.lineno]
+  if not defs:
+    return False
+  v = unparse(max(defs, key=lambda s: s.lineno).value)
+  return (v.endswith(f'.map_children({recv.id})') or
+          v in (f'copy.copy({recv.id})', f'copy.deepcopy({recv.id})'))
+
+
 def store_primitives(ctx: Ctx, rs: RuleSet):
-  """Inside config.py the argument store is written only via the primitives."""
+  """The argument store is written only via the logging primitives.
+
+  Everywhere in the repository: an item store / delete / mutator call on
+  `X.__arguments__` sits in a primitive of config.py, or X is a copy the
+  function has just made (map_children / copy.copy of the same variable: the
+  code generators rewrite their private copies).  Wholesale replacement only
+  in construction / unflatten / unpickle or on such a copy.
+  """
   rule = 'WMC.argument-store-writers'
-  rs.declare(rule, 'stores/deletes on __arguments__ inside config.py go '
-             'through _arguments_set_value/_arguments_del_value; wholesale '
-             'replacement only in construction/unflatten/unpickle', 3)
+  rs.declare(rule, 'stores/deletes on __arguments__ go through '
+             '_arguments_set_value/_arguments_del_value (or act on a copy the '
+             'function has just made); wholesale replacement only in '
+             'construction/unflatten/unpickle', 3)
   allowed_item = {SET_PRIM, DEL_PRIM}
   allowed_whole = {f'{B}.__init_callable__', f'{B}.__unflatten__',
                    f'{B}.__setstate__', f'{B}.__deepcopy__'}
-  mod = ctx.mod('fiddle._src.config')
-  for f in mod.all_funcs:
-    for n in walk_function(f.node):
-      tgts = []
-      if isinstance(n, ast.Assign):
-        tgts = n.targets
-      elif isinstance(n, ast.AugAssign):
-        tgts = [n.target]
-      elif isinstance(n, ast.Delete):
-        tgts = n.targets
-      for t in tgts:
-        if isinstance(t, ast.Subscript) and isinstance(
-            t.value, ast.Attribute) and t.value.attr == '__arguments__':
-          rs.check(f.qualname in allowed_item, rule,
-                   f'{f.qualname}:__arguments__[...]',
-                   'item store/delete on __arguments__ ' +
-                   ('inside a logging primitive' if f.qualname in allowed_item
-                    else 'outside the logging primitives: history and tag '
-                    'expansion are bypassed'), ctx.loc(f, n))
-      if isinstance(n, ast.Call) and isinstance(n.func, ast.Attribute) and (
-          n.func.attr == '__setattr__') and n.args:
-        name_arg = n.args[1] if len(n.args) >= 2 and not (
-            isinstance(n.func.value, ast.Call)) else n.args[0]
-        for a in n.args[:2]:
-          if isinstance(a, ast.Constant) and a.value == '__arguments__':
-            rs.check(f.qualname in allowed_whole, rule,
-                     f'{f.qualname}:__arguments__=',
-                     'wholesale replacement of __arguments__', ctx.loc(f, n),
-                     nontrivial=False)
-      # mutator method calls on the store
-      if isinstance(n, ast.Call) and isinstance(
-          n.func, ast.Attribute) and n.func.attr in (
-              'update', 'pop', 'clear', 'setdefault', 'popitem') and isinstance(
-                  n.func.value, ast.Attribute) and (
-                      n.func.value.attr == '__arguments__'):
-        rs.fail(rule, f'{f.qualname}:__arguments__.{n.func.attr}',
-                f'`{unparse(n)}` mutates the argument store without logging',
-                ctx.loc(f, n))
+  for modname in sorted(ctx.p.modules):
+    mod = ctx.mod(modname)
+    in_config = modname == 'fiddle._src.config'
+    for f in mod.all_funcs:
+      for n in walk_function(f.node):
+        tgts = []
+        if isinstance(n, ast.Assign):
+          tgts = n.targets
+        elif isinstance(n, ast.AugAssign):
+          tgts = [n.target]
+        elif isinstance(n, ast.Delete):
+          tgts = n.targets
+        for t in tgts:
+          if isinstance(t, ast.Subscript) and isinstance(
+              t.value, ast.Attribute) and t.value.attr == '__arguments__':
+            prim = f.qualname in allowed_item
+            fresh = not in_config and _fresh_receiver(f, t.value.value, n)
+            rs.check(prim or fresh, rule,
+                     f'{f.qualname}:__arguments__[...]',
+                     'item store/delete on __arguments__ ' +
+                     ('inside a logging primitive' if prim else
+                      f'of the copy `{unparse(t.value.value)}` made in this '
+                      'function' if fresh else
+                      'outside the logging primitives: no history entry is '
+                      'appended for the change (the parameter\'s history no '
+                      'longer ends with its current value / a deletion '
+                      'marker) and tag expansion is bypassed'), ctx.loc(f, n))
+        if isinstance(n, ast.Call) and isinstance(n.func, ast.Attribute) and (
+            n.func.attr == '__setattr__') and n.args:
+          for i, a in enumerate(n.args[:2]):
+            if isinstance(a, ast.Constant) and a.value == '__arguments__':
+              recv = n.args[0] if i == 1 else None
+              fresh = (not in_config and recv is not None and
+                       _fresh_receiver(f, recv, n))
+              rs.check(f.qualname in allowed_whole or fresh, rule,
+                       f'{f.qualname}:__arguments__=',
+                       'wholesale replacement of __arguments__' + (
+                           ' of a copy made in this function' if fresh else
+                           ''), ctx.loc(f, n), nontrivial=False)
+        # mutator method calls on the store
+        if isinstance(n, ast.Call) and isinstance(
+            n.func, ast.Attribute) and n.func.attr in (
+                'update', 'pop', 'clear', 'setdefault', 'popitem'
+            ) and isinstance(n.func.value, ast.Attribute) and (
+                n.func.value.attr == '__arguments__'):
+          fresh = not in_config and _fresh_receiver(
+              f, n.func.value.value, n)
+          rs.check(fresh, rule, f'{f.qualname}:__arguments__.{n.func.attr}',
+                   f'`{unparse(n)[:70]}` ' + (
+                       'acts on a copy made in this function' if fresh else
+                       'mutates the argument store without logging'),
+                   ctx.loc(f, n))
 
 
 def store_log_pairing(ctx: Ctx, rs: RuleSet, rule='PAIR.store-log'):
